@@ -70,7 +70,8 @@ def pad_header(part, total):
     return h2 + data[eol:], nlines
 
 
-def check_seq(seq, obs, main_options_everywhere=False, pad=None):
+def check_seq(seq, obs, main_options_everywhere=False, pad=None,
+              crlf=False, reiterate=False):
     parts = [section_bytes(s) for s in seq]
     if pad:
         # header lines of exactly 96 / 192 / 288 bytes: a legal order must
@@ -89,6 +90,9 @@ def check_seq(seq, obs, main_options_everywhere=False, pad=None):
         else:
             parts[0] = (b'#%s: encoding=utf-8, version=1.0\n' % sid.encode(),
                         1)
+    if crlf:
+        # CRLF header lines (content keeps its own LF endings)
+        parts = [(p[0].replace(b'\n', b'\r\n', 1), p[1]) for p in parts]
     data = b''.join(p[0] for p in parts)
     lines = []
     n = 0
@@ -97,7 +101,35 @@ def check_seq(seq, obs, main_options_everywhere=False, pad=None):
         n += p[1]
     want_k, either = oracle(seq)
     recs, exc, _ = common.read_records(data)
+    if reiterate:
+        # the same reader object iterated a second time over the rewound
+        # stream must judge the order exactly as the first time
+        from pydiffx.reader import DiffXReader
+        import io
+        fp = io.BytesIO(data)
+        rd = DiffXReader(fp)
+        try:
+            for _ in rd:
+                pass
+        except Exception:
+            pass
+        fp.seek(0)
+        recs2, exc2 = [], None
+        try:
+            for r in rd:
+                recs2.append(common.project(r))
+        except Exception as e:
+            exc2 = e
+        obs.count('reiterations_compared')
+        if ([r['section'] for r in recs2] != [r['section'] for r in recs] or
+                type(exc2) is not type(exc)):
+            obs.violation('second_iteration_judges_order_differently',
+                          {'sequence': list(seq), 'reiterate': True},
+                          {'first': [len(recs), repr(exc)[:120]],
+                           'second': [len(recs2), repr(exc2)[:120]]})
+            return
     case = {'sequence': list(seq), 'pad': list(pad) if pad else None,
+            'crlf': crlf, 'reiterate': reiterate,
             'main_options_everywhere': main_options_everywhere}
     got_ids = [r['section'] for r in recs]
     if exc is not None and type(exc).__name__ != 'DiffXParseError':
@@ -183,9 +215,15 @@ def run(ctx):
                 check_seq(p + (ext,), obs)
                 n += 1
                 if i % 16 == 0:
-                    check_seq(p + (ext,), obs,
-                              pad=[(96, 192, 288), (95, 97), (192,)][i // 16 % 3])
-                    n += 1
+                    pads = [(96, 192, 288), (95, 97), (192,), (97, 193),
+                            (96, 98), (94, 95, 96, 97, 98)][i // 16 % 6]
+                    check_seq(p + (ext,), obs, pad=pads)
+                    check_seq(p + (ext,), obs, pad=pads, crlf=True)
+                    n += 2
+                if i % 16 == 8:
+                    check_seq(p + (ext,), obs, crlf=True)
+                    check_seq(p + (ext,), obs, reiterate=True)
+                    n += 2
     for first in H.ALL_IDS:
         for second in ('.change', '.meta', 'diffx'):
             i += 1
@@ -212,4 +250,5 @@ def replay(case, obs):
     obs.case(None, nontrivial=False)
     check_seq(tuple(case['sequence']), obs,
               case.get('main_options_everywhere', False),
-              pad=case.get('pad'))
+              pad=case.get('pad'), crlf=case.get('crlf', False),
+              reiterate=case.get('reiterate', False))
